@@ -194,6 +194,10 @@ def plan(tier, seed):
                                   "fmt": ["csc", "csr", "coo"][int(rng.integers(0, 3))],
                                   "sort": SORTERS[int(rng.integers(0, len(SORTERS)))], "steps": 2 if quick else 3,
                                   "id": int(rng.integers(0, 2 ** 31))})
+    # ---- slender FE pencils: relative accuracy of the lowest eigenvalues, in-place matrix updates
+    for r in range(48 if quick else 400):
+        cases.append({"fam": "slender", "mesh": [[30, 2], [40, 1], [60, 1], [100, 1], [24, 3], [50, 2]][r % 6], "gen": bool(r % 2),
+                      "fmt": ["csc", "csr"][(r // 2) % 2], "nmodes": 1 + r % 4, "id": int(rng.integers(0, 2 ** 31))})
     # shards take every 16th case: shuffle so that the expensive meshes do not all land in the same shards
     return [cases[j] for j in rng.permutation(len(cases))]
 
@@ -459,8 +463,61 @@ def _run_syn(case, ctx, pym):
             "nontrivial": True, "obs": dict(obs, sigma=sig)}
 
 
+def _run_slender(case, ctx, pym):
+    """Slender FE pencils (lowest eigenvalue 1e-6..1e-9 of the matrix entries): the lowest eigenvalues - the ones a user asks a
+    shift-invert solver for - are compared with the dense reference to *relative* accuracy (limited only by the accuracy of the
+    reference itself, ~ eps*|K|/lambda); then the same matrix object is updated in place and the module evaluated again."""
+    import scipy.linalg as sl
+    from ..core import Violation
+    rng = ctx.rng("slender", case["id"])
+    nx, ny = case["mesh"]
+    dom = pym.DomainDefinition(nx, ny, unitx=float(rng.uniform(0.5, 2)), unity=float(rng.uniform(0.5, 2)))
+    bc = (np.asarray(dom.nodes)[0, :] * 2 + np.arange(2)[None]).flatten()
+    free = np.setdiff1d(np.arange(dom.nnodes * 2), bc)
+    x = rng.uniform(0.3, 1.0, dom.nel)
+    mk = pym.AssembleStiffness(pym.Signal("x", x), pym.Signal("K"), dom, bc=bc)
+    mk.response()
+    K = mk.sig_out[0].state.asformat(case["fmt"])
+    sigs, Md = [pym.Signal("K", K)], None
+    if case["gen"]:
+        mm = pym.AssembleMass(pym.Signal("x", x), pym.Signal("M"), dom, bc=bc, ndof=2, bcdiagval=1e-3)
+        mm.response()
+        M = mm.sig_out[0].state.asformat(case["fmt"])
+        sigs.append(pym.Signal("M", M))
+        Md = M.toarray()[np.ix_(free, free)]
+    k = case["nmodes"]
+    es = pym.EigenSolve(sigs, [pym.Signal("lam"), pym.Signal("Q")], nmodes=k)
+    worst = 0.0
+    fac = 1.0
+    for step in range(3):
+        es.response()
+        lam = np.asarray(es.sig_out[0].state)
+        refv = sl.eigh(fac * K.toarray()[np.ix_(free, free)] / fac if False else K.toarray()[np.ix_(free, free)], Md, eigvals_only=True)[:k]
+        if lam.shape != refv.shape:
+            raise Violation("sparse/wrong-number-of-modes", got=list(lam.shape), want=k)
+        kmax = float(abs(K).max())
+        tol = 1000 * np.finfo(float).eps * kmax / (refv * (1.0 if Md is None else float(np.abs(Md).max()))) + 1e-9
+        rel = np.abs(lam - refv) / np.abs(refv)
+        ctx.count("eigenvalues_compared", k)
+        ctx.count("slender_relative_checks", k)
+        worst = max(worst, float(np.max(rel / tol)))
+        if np.any(rel > tol):
+            j = int(np.argmax(rel / tol))
+            mech = "eigenpair/lowest-eigenvalues-differ-from-dense-reference-beyond-its-accuracy" if step == 0 else \
+                "history/in-place-update-of-the-matrix-object-not-followed"
+            raise Violation(mech, mode=j, got=float(lam[j]), want=float(refv[j]), rel_err=float(rel[j]), tol=float(tol[j]), mesh=[nx, ny],
+                            generalised=case["gen"], step=step)
+        # in-place update of the same matrix object (e.g. K.data[:] = ... in a user loop)
+        f = float(rng.uniform(1.3, 2.5))
+        K.data[:] = K.data * f
+    return {"key": f"slender/{nx}x{ny}/{'KM' if case['gen'] else 'K'}/{case['fmt']}/k{k}", "nontrivial": True,
+            "obs": {"mesh": [nx, ny], "worst_rel_err_over_tol": worst}}
+
+
 def run_case(case, ctx):
     import pymoto as pym
+    if case["fam"] == "slender":
+        return _run_slender(case, ctx, pym)
     if case["fam"] == "dense":
         return _run_dense(case, ctx, pym)
     if case["fam"] == "fe":
